@@ -5,6 +5,7 @@ import ApolloModel.Proofs.ParserTermination2
 import ApolloModel.Proofs.ParserRecursion9
 import ApolloModel.Proofs.ParserRecursion13
 import ApolloModel.Proofs.ParserRecursion17
+import ApolloModel.Proofs.ParserRecursion20
 /-
 C04 — Token and recursion limits are enforced exactly.
 
@@ -217,15 +218,14 @@ theorem rec_high_exact_selection_set (r R : Nat) (src : Parse.Str) (hrR : r ≤ 
 
 /-- …and a recursion-limit error is reported iff the unlimited parse went deeper than `r`. -/
 theorem rec_limit_iff_depth_selection_set (r R : Nat) (src : Parse.Str) (hrR : r ≤ R)
-    (hfree : (parse .selectionSet none R src).recHigh ≤ R)
-    (hclean : ¬ ∃ e, e ∈ (parse .selectionSet none R src).errors ∧ e.kind = .limit) :
+    (hfree : (parse .selectionSet none R src).recHigh ≤ R) :
     (∃ e, e ∈ (parse .selectionSet none r src).errors ∧ e.kind = .limit) ↔ (parse .selectionSet none R src).recHigh > r := by
   have h := (Parse.parseSelectionSet_cross r R src hrR hfree).2
   constructor
   · intro hl
     rcases h.mp hl with h1 | h1
     · exact h1
-    · exact absurd h1 hclean
+    · exact absurd h1 (Parse.parse_no_limit_error .selectionSet R src hfree)
   · intro hgt
     exact h.mpr (Or.inl hgt)
 
@@ -254,36 +254,48 @@ theorem rec_high_exact_document (r R : Nat) (src : Parse.Str) (hrR : r ≤ R)
 
 /-- …and a recursion-limit error is reported iff the unlimited parse went deeper than `r`. -/
 theorem rec_limit_iff_depth_document (r R : Nat) (src : Parse.Str) (hrR : r ≤ R)
-    (hfree : (parse .document none R src).recHigh ≤ R)
-    (hclean : ¬ ∃ e, e ∈ (parse .document none R src).errors ∧ e.kind = .limit) :
+    (hfree : (parse .document none R src).recHigh ≤ R) :
     (∃ e, e ∈ (parse .document none r src).errors ∧ e.kind = .limit) ↔ (parse .document none R src).recHigh > r := by
   have h := (Parse.parse_cross .document r R src hrR hfree).2
   constructor
   · intro hl
     rcases h.mp hl with h1 | h1
     · exact h1
-    · exact absurd h1 hclean
+    · exact absurd h1 (Parse.parse_no_limit_error .document R src hfree)
   · intro hgt
     exact h.mpr (Or.inl hgt)
 
+/-- A parse whose recursion limit is never hit (and that has no token limit) reports no limit error:
+    `limit_err` is only reached when `check_and_increment` fails, and then the high-water mark exceeds the
+    limit.  For every entry point and every source text. -/
+theorem unlimited_parse_has_no_limit_error (e : Entry) (R : Nat) (src : Parse.Str)
+    (hfree : (parse e none R src).recHigh ≤ R) : ¬ ∃ x, x ∈ (parse e none R src).errors ∧ x.kind = .limit :=
+  Parse.parse_no_limit_error e R src hfree
+
 /-- The statement for every entry point, in cross-run form: the nesting depth of a source text is the
-    high-water mark of a parse whose limit `R` is not hit and that recorded no limit error ("the unlimited
-    tree"); with limit `r ≤ R` a recursion-limit error is reported iff that depth exceeds `r`, and the
-    tracker stops at exactly `min depth (r + 1)`. -/
+    high-water mark of a parse whose limit `R` is not hit ("the unlimited tree"); with limit `r ≤ R` a
+    recursion-limit error is reported iff that depth exceeds `r`, and the tracker stops at exactly
+    `min depth (r + 1)`. -/
 def rec_limit_iff_depth_statement : Prop :=
   ∀ (e : Entry) (r R : Nat) (src : Parse.Str), r ≤ R → (parse e none R src).recHigh ≤ R →
-    (¬ ∃ x, x ∈ (parse e none R src).errors ∧ x.kind = .limit) →
     ((∃ x, x ∈ (parse e none r src).errors ∧ x.kind = .limit) ↔ (parse e none R src).recHigh > r) ∧
     (parse e none r src).recHigh = min (parse e none R src).recHigh (r + 1)
 
-/-- …proved for the three entry points `document`, `selectionSet`, `type`. -/
+/-- …proved for the three entry points `document`, `selectionSet`, `type`, with no other side condition. -/
 theorem rec_limit_iff_depth_all_entry_points : rec_limit_iff_depth_statement := by
-  intro e r R src hrR hfree hclean
+  intro e r R src hrR hfree
   obtain ⟨h1, h2⟩ := Parse.parse_cross e r R src hrR hfree
   refine ⟨⟨fun hl => ?_, fun hgt => h2.mpr (Or.inl hgt)⟩, h1⟩
   rcases h2.mp hl with h | h
   · exact h
-  · exact absurd h hclean
+  · exact absurd h (Parse.parse_no_limit_error e R src hfree)
+
+/-- the earlier form, with the (now redundant) hypothesis that the unlimited parse recorded no limit error -/
+theorem rec_limit_iff_depth_all_entry_points_of_clean (e : Entry) (r R : Nat) (src : Parse.Str) (hrR : r ≤ R)
+    (hfree : (parse e none R src).recHigh ≤ R) (_hclean : ¬ ∃ x, x ∈ (parse e none R src).errors ∧ x.kind = .limit) :
+    ((∃ x, x ∈ (parse e none r src).errors ∧ x.kind = .limit) ↔ (parse e none R src).recHigh > r) ∧
+    (parse e none r src).recHigh = min (parse e none R src).recHigh (r + 1) :=
+  rec_limit_iff_depth_all_entry_points e r R src hrR hfree
 
 -- a document with an operation, a fragment and a type definition (kernel-evaluated): depth 2
 example : (parse .document none 9 "query($v: [[Int]] = [[1]]) { a { b } } type T { f(x: [Int]): Int }".toList).recHigh = 2 := by
